@@ -22,6 +22,9 @@ const (
 	dkeyExt   = ".dkey"
 	ps3isoDir = "ps3iso"
 	redkeyDir = "REDKEY"
+
+	// region map (count, pad, start/end pairs) occupies the first sector of the image
+	maxUnencryptedRegions = (uint32(sectorSize) - 8) / 8
 )
 
 var (
@@ -80,6 +83,10 @@ func NewEncryptedISO(f afero.File, data1 []byte, clearRegions bool) (*EncryptedI
 	err = binary.Read(f, binary.BigEndian, &hdr)
 	if err != nil {
 		return nil, fmt.Errorf("read unencrypted regions count failed: %w", err)
+	}
+
+	if hdr.Count > maxUnencryptedRegions {
+		return nil, fmt.Errorf("unexpected unencrypted regions count (%d)", hdr.Count)
 	}
 
 	unencryptedRegions := make([]unencryptedRegion, hdr.Count)
